@@ -197,6 +197,7 @@ type Fetcher struct {
 	Block   map[string]bool        // url -> block until ctx done
 	Calls   []FetchCall
 	Hook    func(url string) // called on entry (outside the lock)
+	Net     *netsim.Sim      // if set, every Fetch is noted in the network's event log
 	open    int
 }
 
@@ -214,7 +215,11 @@ func (f *Fetcher) Fetch(ctx context.Context, url string) (*crl.Bundle, error) {
 	block := f.Block[url]
 	hook := f.Hook
 	f.Calls = append(f.Calls, FetchCall{URL: url, Err: b == nil})
+	net := f.Net
 	f.mu.Unlock()
+	if net != nil {
+		net.Note("fetch", url)
+	}
 	defer func() {
 		f.mu.Lock()
 		f.open--
